@@ -167,14 +167,19 @@ pub fn worker_main(
         if samples.len() < 2 && outcome.nontrivial && plan.ops.len() <= 40 {
             samples.push(plan.to_json());
         }
-        if let Some(v) = outcome.violation {
+        for v in outcome.violations {
+            stats.bump("violations_seen");
+            if v.prop != ask.prop {
+                stats.bump(&format!("foreign.{}", v.prop));
+                continue;
+            }
             if found.len() < max_found && !found.iter().any(|f| f.violation.inv == v.inv) {
                 let original_ops = plan.ops.len();
                 let mut scratch = Stats::default();
                 let res = minimise(
                     &plan,
                     v,
-                    |cand| world.execute(cand, &mut scratch).violation,
+                    |cand| world.execute(cand, &mut scratch).violations,
                     Duration::from_secs(20),
                     2000,
                 );
@@ -185,7 +190,6 @@ pub fn worker_main(
                     original_ops,
                 });
             }
-            stats.bump("violations_seen");
         }
     }
     let _ = progress.flush();
@@ -543,7 +547,19 @@ pub fn run_check(
                 *foreign.entry(crash_prop.to_string()).or_insert(0) += 1;
             }
         }
+        let mut best: BTreeMap<String, usize> = BTreeMap::new();
+        for (n, (_, v, plan)) in res.found.iter().enumerate() {
+            match best.get(&v.inv) {
+                Some(&m) if res.found[m].2.ops.len() <= plan.ops.len() => {}
+                _ => {
+                    best.insert(v.inv.clone(), n);
+                }
+            }
+        }
         for (n, (fj, v, _plan)) in res.found.iter().enumerate() {
+            if best.get(&v.inv) != Some(&n) {
+                continue;
+            }
             if v.prop != prop {
                 *foreign.entry(v.prop.to_string()).or_insert(0) += 1;
                 continue;
@@ -591,6 +607,11 @@ pub fn run_check(
                 prop,
                 path.display()
             ));
+        }
+        for (k, n) in &res.stats.counters {
+            if let Some(p) = k.strip_prefix("foreign.") {
+                *foreign.entry(p.to_string()).or_insert(0) += *n;
+            }
         }
         total.merge(&res.stats);
     }
